@@ -376,6 +376,9 @@ type dtCase struct {
 	Millis  int    `json:"millis"`   // sub-second part carried by the DateTime value (0..999)
 	DeltaMs int64  `json:"delta_ms"` // instant = date-time + delta
 	Loc     string `json:"loc,omitempty"`
+	// InstLoc: the location the INSTANT is carried in ("=" the date-time's own; else a zone name, "UTC", or "fixed" for a
+	// nameless fixed offset) - which instant is earlier does not depend on where the two values are displayed
+	InstLoc string `json:"instant_loc,omitempty"`
 }
 
 func floorDiv(a, b int64) int64 {
@@ -389,6 +392,18 @@ func floorDiv(a, b int64) int64 {
 func checkDT(c dtCase) *rp.Fail {
 	base := time.Unix(c.Unix, int64(c.Millis)*1_000_000).In(api.LoadLocation(c.Loc))
 	inst := base.Add(time.Duration(c.DeltaMs) * time.Millisecond)
+	switch c.InstLoc {
+	case "", "=":
+	case "fixed":
+		inst = inst.In(time.FixedZone("", 19800))
+		ev.Class("datetime/instant-in-another-location", 1)
+	case "utc()":
+		inst = inst.UTC()
+		ev.Class("datetime/instant-in-another-location", 1)
+	default:
+		inst = inst.In(api.LoadLocation(c.InstLoc))
+		ev.Class("datetime/instant-in-another-location", 1)
+	}
 	class := "datetime/far"
 	if c.DeltaMs >= -2000 && c.DeltaMs <= 2000 {
 		class = "datetime/within-2s"
@@ -411,6 +426,12 @@ func genDT(t *rapid.T) dtCase {
 	c := dtCase{Unix: rapid.Int64Range(0, 253402300799).Draw(t, "unix"), Millis: rapid.SampledFrom([]int{0, 0, 1, 499, 500, 999}).Draw(t, "millis"), Loc: gen.ZoneName(t, "loc")}
 	if rapid.IntRange(0, 3).Draw(t, "recent") != 0 {
 		c.Unix = rapid.Int64Range(0, 4102444800).Draw(t, "unix.recent")
+	}
+	if rapid.Bool().Draw(t, "instant.elsewhere") {
+		c.InstLoc = rapid.SampledFrom([]string{"fixed", "utc()", "UTC", "America/Santiago", "Asia/Kathmandu", "Pacific/Kiritimati"}).Draw(t, "instant.loc")
+		if rapid.Bool().Draw(t, "instant.zone") {
+			c.InstLoc = gen.ZoneName(t, "instant.zone.name")
+		}
 	}
 	switch rapid.IntRange(0, 3).Draw(t, "delta.kind") {
 	case 0:
